@@ -56,7 +56,7 @@ type Sched struct {
 	Schedule   []int // thread id chosen at every switch (for printing)
 
 	FineGrained bool // scheduling points at every statement of the core files, not only at sync operations
-	TimerBudget int // how many timer/ticker firings the environment may still deliver
+	TimerBudget int  // how many timer/ticker firings the environment may still deliver
 	Clock       int64
 	Locals      map[interface{}]interface{} // per-execution storage for shims (closed channels etc.)
 
